@@ -124,15 +124,19 @@ Print Assumptions shipped_classes_listed.
 (* From any loaded state (any tables, tasks, sockets), a complete unload() - its steps interleaved
    with arbitrary datagrams, loop iterations, task activity and socket traffic - ends unloaded. *)
 Theorem unload_establishes : forall c n l,
-  loaded c n -> complete_unload c (steps_of l) = true -> unloaded (fst (irun c n l)).
+  loaded c n -> Forall (fun i => item_routed i = true) l ->
+  complete_unload c (steps_of l) = true -> unloaded (fst (irun c n l)).
 Proof. exact unload_establishes_l. Qed.
 Print Assumptions unload_establishes.
 
 (* Once unload() has completed - at whatever moment it was requested - for every later datagram,
-   loop iteration, task or cache deadline, socket datagram and API call: no handler entry, no
-   send, no task start, no task body, no transport send; only refusals; every socket stays closed. *)
+   loop iteration, task or cache deadline, socket datagram, API call, and every resumption of a public
+   coroutine the application is still awaiting whose sending steps are tasks of the overlay's manager
+   (item_routed): no handler entry, no send, no task start, no task body, no transport send; only
+   refusals; every socket stays closed. *)
 Theorem unloaded_is_silent : forall c n l later,
-  loaded c n -> complete_unload c (steps_of l) = true ->
+  loaded c n -> Forall (fun i => item_routed i = true) (l ++ later) ->
+  complete_unload c (steps_of l) = true ->
   let n1 := fst (irun c n l) in
   Forall silent_out (snd (irun c n1 later))
   /\ Forall (fun s => s_open s = false) (n_socks (fst (irun c n1 later)))
@@ -142,7 +146,8 @@ Print Assumptions unloaded_is_silent.
 
 (* The same for the shipped classes, with the generated step lists. *)
 Theorem shipped_unloaded_is_silent : forall nm c steps n l later,
-  In (nm, c, steps) unload_table -> loaded c n -> steps_of l = steps ->
+  In (nm, c, steps) unload_table -> loaded c n -> Forall (fun i => item_routed i = true) (l ++ later) ->
+  steps_of l = steps ->
   let n1 := fst (irun c n l) in
   Forall silent_out (snd (irun c n1 later))
   /\ Forall (fun s => s_open s = false) (n_socks (fst (irun c n1 later)))
@@ -152,12 +157,28 @@ Print Assumptions shipped_unloaded_is_silent.
 
 (* After unload neither the overlay nor the crypto endpoint it installed is called or referenced. *)
 Theorem crypto_listener_removed : forall c n l later o,
-  loaded c n -> complete_unload c (steps_of l) = true ->
+  loaded c n -> Forall (fun i => item_routed i = true) (l ++ later) ->
+  complete_unload c (steps_of l) = true ->
   let n2 := fst (irun c (fst (irun c n l)) later) in
   ~ In (n_me n2) (called (n_ep n2) o)
   /\ (forall cr, n_crypto n2 = Some cr -> ~ In cr (called (n_ep n2) o) /\ absent cr (inner (n_ep n2))).
 Proof. exact crypto_listener_removed_l. Qed.
 Print Assumptions crypto_listener_removed.
+
+(* Which public coroutines meet that hypothesis (table regenerated from the source: a public coroutine is
+   routed when every path from it to endpoint.send / send_cell / sendto after its first suspension passes
+   through a @task method).  Every public coroutine of every shipped overlay class is routed, except exactly
+   three of HiddenTunnelCommunity (they wait for circuit.ready, which unload() resolves to None). *)
+Theorem shipped_api_unrouted :
+  unrouted_api = [("HiddenTunnelCommunity", "create_introduction_point"); ("HiddenTunnelCommunity", "create_rendezvous_point");
+                  ("HiddenTunnelCommunity", "do_peer_discovery")]%string.
+Proof. exact shipped_api_unrouted_l. Qed.
+Print Assumptions shipped_api_unrouted.
+
+Theorem shipped_api_routed : forall c m r,
+  In (c, m, r) public_coroutines -> c <> "HiddenTunnelCommunity"%string -> r = true.
+Proof. exact shipped_api_routed_l. Qed.
+Print Assumptions shipped_api_routed.
 
 (* ---------------------------------------------------------------- (iv) the IPv8 service object *)
 
@@ -245,8 +266,10 @@ Example c11_nonvacuous_lifecycle :
   /\ (let n1 := fst (irun tunnel_cls tunnel_node (map IStep fixed_tunnel_steps)) in
       snd (irun tunnel_cls n1 [IEvent (EDatagram d None [ASend; ANewSock; AEnable 1]); IEvent (EOutside 0 [ASend]);
                                IEvent (ETm WOwn Tick); IEvent (EFire WOwn 1 [ASend]); IEvent (EFire (WSock 0) 0 [ASend]);
-                               IEvent (ETm WOwn (Register (Named 8) KCoro))])
-      = [NTask WOwn (OReg RRefused)]
+                               IEvent (ETm WOwn (Register (Named 8) KCoro)); IEvent (EApiStep true [ASend])])
+      = [NTask WOwn (OReg RRefused); NTask WOwn (OReg RRefused)]
+      /\ snd (nstep tunnel_cls n1 (EApiStep false [ASend])) = [NApi; NSend]
+      /\ snd (nstep tunnel_cls tunnel_node (EApiStep true [ASend])) = [NTask WOwn (OReg (RNew 3%nat)); NSend]
       /\ map s_open (n_socks n1) = [false])
   /\ complete_unload tunnel_cls old_tunnel_steps = false
   /\ (let n0 := fst (irun tunnel_cls tunnel_node (map IStep old_tunnel_steps)) in
